@@ -2049,6 +2049,11 @@ class Engine:
 
     def e_YieldFrom(self, node, env):
         it = self.eval(node.value, env)
+        if isinstance(it, SObj):
+            # `yield from obj`: obj.__iter__() - when that is a generator its yields are passed through one by one, as they happen
+            f, _ = it.cls.lookup('__iter__')
+            if f is not None:
+                it = self.call(BoundMethod(f, it), [], {})
         if isinstance(it, GenObj):
             h = self.yield_handlers[-1]
             return self.run_generator(it, h)
